@@ -1,6 +1,9 @@
 pub mod ak;
 pub mod c01;
 pub mod c02;
+pub mod c14;
+pub mod c16;
+pub mod c16b;
 pub mod driver;
 pub mod engine;
 pub mod egen;
@@ -12,6 +15,9 @@ pub fn dispatch(prop: &str, tier: Tier, replay: Option<String>) -> i32 {
     match prop {
         "C01" => c01::run(tier, replay),
         "C02" => c02::run(tier, replay),
+        "C06" => c01::run_c06(tier, replay),
+        "C14" => c14::run(tier, replay),
+        "C16" => c16::run(tier, replay),
         "count" => {
             for (n, c) in engine::count_strata_bodies(tier) {
                 println!("{n}: {c}");
